@@ -179,3 +179,8 @@ def lstsq_solution(A, b):
 def key_position(d, k):
     """Native meaning: the index of key k in the iteration order of d."""
     return list(d).index(k)
+
+
+def sort_position(sorted_list, p):
+    """Native meaning is not needed (used in ghost code of proofs only)."""
+    raise NotImplementedError
